@@ -164,6 +164,17 @@ class History:
         salt = rng.choice([None, None, None, base64.b64encode(bytes(rng.randrange(256) for _ in range(rng.choice([0, 1, 8, 32, 65])))).decode()])
         sender = rng.choice(self.accounts[:4])
         plan, cls = draw_plan(rng, prog, inst, self.canon, self.accounts)
+        factory = False
+        if cls == "ok" and code != 9999 and rng.random() < 0.25:
+            # a factory: the instantiate handler instantiates a child of the same code, so the response carries two
+            # `instantiate` events; the handle returned by the proxy must still be the contract that was asked for
+            child_texts = draw_args(rng, prog, inst)
+            child_doc = doc_text(inst, canon_args(self.canon, prog, inst, child_texts))
+            resp = json.loads(plan["ok"])
+            resp["messages"].append({"id": 0, "payload": "", "gas_limit": None, "reply_on": "never",
+                                     "msg": {"wasm": {"instantiate": {"admin": None, "code_id": code, "msg": b64s(child_doc), "funds": [], "label": "child"}}}})
+            plan = {"ok": dumps(resp), "once": True}
+            factory = True
         ca = {"op": "mtp:instantiate", "code_id": code, "args": texts, "label": label, "admin": admin, "funds": funds, "salt": salt, "sender": sender}
         if rng.random() < 0.3:
             # setters called repeatedly: only the last value counts (None clears the admin again)
@@ -181,12 +192,24 @@ class History:
         ra, rb = self.both(step, ca, cb, "instantiate", perr, inst, plan)
         if ra is None:
             return
+        # the contract the raw message created: the first `instantiate` event (events of sub-messages follow it), which is
+        # also the address in the response data (MsgInstantiateContractResponse, field 1)
         addr_b = None
         for ev in rb["events"]:
-            if ev["type"] == "instantiate":
+            if ev["type"] == "instantiate" and addr_b is None:
                 for at in ev["attributes"]:
                     if at["key"] == "_contract_address":
                         addr_b = at["value"]
+        if rb.get("data"):
+            raw = base64.b64decode(rb["data"])
+            if raw[:1] == b"\x0a":
+                ln = raw[1]
+                from_data = raw[2:2 + ln].decode() if ln < 128 else None
+                if from_data is not None and from_data != addr_b:
+                    self.violate("harness-address", f"step {step}: raw chain reports {addr_b} in the event but {from_data} in the response data")
+                    return
+        if factory:
+            self.ctx.count("factory_instantiations" + ("_salted" if salt is not None else ""))
         if ra["addr"] != addr_b:
             self.violate("instantiate-address", f"step {step}: proxy says the new contract is {ra['addr']} but the raw chain instantiated {addr_b}")
             return
